@@ -615,6 +615,13 @@ pub fn gen_faults(rng: &mut Rng) -> Vec<Fault> {
 }
 
 pub fn c06(ctx: &Ctx, rep: &mut Report) {
+    if !ctx.miri && ctx.only.map_or(ctx.shard <= 1, |o| o == crate::m_basic::SPECIAL_TINY_FILES) {
+        // "no byte string ... makes the readers panic": also the smallest files through the file-based constructors
+        crate::m_basic::tiny_files_from_path(ctx, rep, if ctx.shard == 0 { Fmt::Fasta } else { Fmt::Fastq });
+    }
+    if ctx.only.map_or(false, |o| o >= crate::m_basic::SPECIAL_TINY_FILES) {
+        return;
+    }
     let w = Weights {
         next: 6,
         owned: 2,
